@@ -151,9 +151,20 @@ def _referenced_names(p) -> Set[str]:
     return out
 
 
+# modules a property depends on although its anchor list does not name them
+EXTRA_FILES = {
+    'C11': ['django_evolution/mutators/base.py',
+            'django_evolution/mutators/app_mutator.py',
+            'django_evolution/mutators/model_mutator.py',
+            'django_evolution/mutations/base.py'],
+    'C01': ['django_evolution/mutators/base.py'],
+    'C02': ['django_evolution/mutators/base.py'],
+}
+
+
 def run(ctx, prop: str):
     p = ctx.program
-    files = anchor_files(prop)
+    files = anchor_files(prop) + EXTRA_FILES.get(prop.upper(), [])
     mods = [m for m in p.modules.values() if m.relpath in files]
     if not mods:
         raise AnalysisError('hygiene: none of the anchor files of %s is a '
@@ -242,23 +253,58 @@ def run(ctx, prop: str):
                                         f.qualname, a.id, t.qualname, pos[i]),
                                     key='swapped-arguments:%s' % call_name(c))
                     names = pos + kwo
+
+                    def last_id(e):
+                        # x -> 'x', self.x / obj.x -> 'x'
+                        if isinstance(e, ast.Name):
+                            return e.id
+                        if isinstance(e, ast.Attribute):
+                            return e.attr
+                        return None
                     for k in c.keywords:
-                        if isinstance(k.value, ast.Name) and \
-                                k.value.id in names and k.value.id != k.arg:
+                        vid = last_id(k.value)
+                        if vid in names and vid != k.arg:
                             other = [kk for kk in c.keywords
-                                     if kk.arg == k.value.id and
-                                     isinstance(kk.value, ast.Name) and
-                                     kk.value.id == k.arg]
+                                     if kk.arg == vid and
+                                     last_id(kk.value) == k.arg]
                             if other:
                                 swap_bad = True
                                 ctx.finding(
                                     f, c, '%s passes %s=%s and %s=%s to %s: '
                                     'the two arguments sit in each other\'s '
-                                    'places' % (f.qualname, k.arg, k.value.id,
-                                                other[0].arg,
-                                                other[0].value.id,
-                                                t.qualname),
+                                    'places' % (
+                                        f.qualname, k.arg,
+                                        unparse(k.value), other[0].arg,
+                                        unparse(other[0].value), t.qualname),
                                     key='swapped-arguments:%s' % call_name(c))
+    # crossed keywords, whatever the callee: f(a=x.b, b=x.a)
+    ctx.rule('R-%s.92' % pid)
+    for m in mods:
+        for f in m.all_funcs():
+            for c in walk_no_nested(f.node, include_lambda=True):
+                if not (isinstance(c, ast.Call) and len(c.keywords) >= 2):
+                    continue
+
+                def _last(e):
+                    if isinstance(e, ast.Name):
+                        return e.id
+                    if isinstance(e, ast.Attribute):
+                        return e.attr
+                    return None
+                for k in c.keywords:
+                    v = _last(k.value)
+                    if not (k.arg and v and v != k.arg):
+                        continue
+                    o = [kk for kk in c.keywords
+                         if kk.arg == v and _last(kk.value) == k.arg]
+                    if o:
+                        swap_bad = True
+                        ctx.finding(f, c, '%s passes %s=%s and %s=%s: the two '
+                                    'values sit under each other\'s names' % (
+                                        f.qualname, k.arg, unparse(k.value),
+                                        o[0].arg, unparse(o[0].value)),
+                                    key='swapped-arguments:%s' %
+                                    call_name(c))
     ctx.rule('R-%s.91' % pid)
     ctx.counts['R-%s.91 calls with a resolved package callee' % pid] = n_calls
     if not sig_bad:
